@@ -148,7 +148,7 @@ func verifH_C17_schema_leaf() {
 	verifReach("end")
 }
 
-//verif:harness id=C17 tier=quick,thorough witness=end bounds="nested v2 schema: object with properties {p: leaf | $ref}, items leaf | $ref, allOf [leaf, $ref], additionalProperties schema | $ref | bool, discriminator, x-nullable; reference suffix = 1-2 symbolic lowercase bytes after #/definitions/; v2->v3 places, v3 prefixes; v3->v2 equals the original and no #/components/ reference remains"
+//verif:harness id=C17 tier=quick,thorough witness=end bounds="nested v2 schema: object with properties {p: leaf | $ref}, items leaf | $ref, allOf [leaf, $ref], additionalProperties schema | $ref | bool, discriminator, x-nullable; reference suffix = 1-2 symbolic lowercase bytes after #/definitions/; v2->v3 places, v3 prefixes; v3->v2 equals the original and no #/components/ reference remains; the OpenAPI 3 schema is unchanged by the way back and a second conversion of it gives the same result"
 func verifH_C17_schema_nested() {
 	verifPtrs = false
 	name := verifStr("refname", 1+verifChoose("refname.len", 2))
@@ -284,6 +284,13 @@ func verifH_C17_schema_nested() {
 		}
 	case 4:
 		verifAssert(back.Value.Discriminator == src.Discriminator, "C17 nested back: discriminator survives the round trip")
+		wantNullable := src.Extensions != nil && src.Extensions["x-nullable"] == true
+		verifAssert((back.Value.Extensions["x-nullable"] == true) == wantNullable, "C17 nested back: x-nullable survives the round trip")
+		// converting is reading: the OpenAPI 3 schema is as it was, and converting it again gives the same answer
+		_, invented := v3.Value.Extensions["x-nullable"]
+		verifAssert(v3.Value.Nullable == wantNullable && !(invented && !wantNullable), "C17 nested back: converting back leaves the OpenAPI 3 schema as it was")
+		again, _ := FromV3SchemaRef(v3, &openapi3.Components{})
+		verifAssert(again != nil && again.Value != nil && (again.Value.Extensions["x-nullable"] == true) == wantNullable, "C17 nested back: converting the same OpenAPI 3 schema twice gives the same result")
 	}
 	verifReach("end")
 }
